@@ -173,4 +173,76 @@ struct Shift {
     }
     static void reg(char const* name) { add_site({std::string("C05|shift|") + name, run, 0, nullptr}); }
 };
+// elastic_scaled_integer: + - * unary - are exact, comparisons follow the values, whatever the digit counts and exponents
+template<class L, class R>
+struct Esi {
+    using LI = scaled_info<L>;
+    using RI = scaled_info<R>;
+    static constexpr int LD = declared_digits<L>, RD = declared_digits<R>;
+    static constexpr int n_ops = 10;
+    static char const* opname(int op)
+    {
+        static char const* n[] = {"+", "-", "*", "neg", "==", "!=", "<", "<=", ">", ">="};
+        return n[op];
+    }
+    static void check(int op, mpz_class const& za, mpz_class const& zb, Outcome& o, std::string* d)
+    {
+        if (d) *d = std::string(opname(op)) + " a_rep=" + zstr(za) + " b_rep=" + zstr(zb);
+        o.fp = fpn(za, zb, op);
+        L a = make_rep<L>(za);
+        R b = make_rep<R>(zb);
+        mpq_class va = mkq(za) * qpow(2, LI::exponent), vb = mkq(zb) * qpow(2, RI::exponent);
+        bool good = true;
+        auto judge_scaled = [&](char const* name, auto const& res, mpq_class const& exact) {
+            using Res = std::remove_cvref_t<decltype(res)>;
+            mpq_class got = value_of(res);
+            constexpr int D = declared_digits<Res>;
+            if (got != exact) {
+                o.fail(std::string("esi") + name + "/value-mismatch", "expected " + qstr(exact) + " got " + qstr(got));
+                return false;
+            }
+            if (abs(rep_mpz(res)) > dmax(D)) {
+                o.fail(std::string("esi") + name + "/result-outside-declared-range", "rep " + zstr(rep_mpz(res)) + " digits " + std::to_string(D));
+                return false;
+            }
+            return true;
+        };
+        bool ok = guard(o, [&] {
+            switch (op) {
+            case 0: good = judge_scaled("+", a + b, va + vb); break;
+            case 1: good = judge_scaled("-", a - b, va - vb); break;
+            case 2: good = judge_scaled("*", a * b, va * vb); break;
+            case 3: good = judge_scaled("neg", -a, -va); break;
+            default: {
+                int ord = cmp(va, vb);
+                bool e[6] = {ord == 0, ord != 0, ord < 0, ord <= 0, ord > 0, ord >= 0};
+                bool g[6] = {a == b, a != b, a < b, a <= b, a > b, a >= b};
+                bool gr[6] = {b == a, b != a, b > a, b >= a, b < a, b <= a};
+                if (g[op - 4] != e[op - 4] || gr[op - 4] != e[op - 4]) {
+                    o.fail(std::string("esicmp") + opname(op) + "/value-mismatch", std::string("expected ") + (e[op - 4] ? "true" : "false"));
+                    good = false;
+                }
+            }
+            }
+        });
+        if (!ok || !good) return;
+        bool extreme = abs(za) == dmax(LD) || abs(zb) == dmax(RD);
+        o.pass(true, extreme ? "operand-at-extreme" : opname(op));
+    }
+    static void run(Words& w, Outcome& o, std::string* d)
+    {
+        int op = int(draw_small(w, 0, n_ops - 1));
+        mpz_class za = draw_declared<L>(w), zb = draw_declared<R>(w);
+        unsigned m = unsigned(w.next() % 6);
+        if (m == 0) za = (w.next() & 1) && declared_signed<L> ? mpz_class(-dmax(LD)) : dmax(LD);
+        if (m == 1) zb = (w.next() & 1) && declared_signed<R> ? mpz_class(-dmax(RD)) : dmax(RD);
+        if (m == 2) {  // b (nearly) the same value as a, expressed at b's exponent
+            mpq_class t = mkq(za) * qpow(2, LI::exponent - RI::exponent);
+            mpz_class z = q_floor(t) + (long(w.next() % 3) - 1);
+            if (abs(z) <= dmax(RD) && (declared_signed<R> || z >= 0)) zb = z;
+        }
+        check(op, za, zb, o, d);
+    }
+    static void reg(char const* name) { add_site({std::string("C05|esi|") + name, run, 0, nullptr}); }
+};
 }  // namespace c05
